@@ -37,48 +37,49 @@ def call_onnx_api(func: Callable[[onnx.ModelProto], _R], model: ir.Model) -> _R:
     # Store the original initializer values so they can be restored
     initializer_values = tuple(model.graph.initializers.values())
     tensors = {v.name: v.const_value for v in initializer_values}
+    shapes_and_types = [(v.shape, v.type) for v in initializer_values]
     original_inputs_len = len(model.graph.inputs)
 
-    # Turn the initializers into inputs and clear the initializers
-    # to limit the model size
-    for initializer in initializer_values:
-        # Make sure the initializer has its shape/type set
-        if initializer.const_value is not None:
-            if initializer.shape is None:
-                initializer.shape = initializer.const_value.shape  # type: ignore[assignment]
-            if initializer.dtype is None:
-                initializer.dtype = initializer.const_value.dtype
-        if initializer not in model.graph.inputs:
-            model.graph.inputs.append(initializer)
-        if initializer.const_value is None:
-            # Initializer has no data (e.g. weights not loaded yet).
-            # Remove it from initializers so serialization doesn't fail,
-            # but keep it as an input so shape inference can use its type/shape.
-            assert initializer.name is not None
-            model.graph.initializers.pop(initializer.name)
-        elif initializer.const_value.nbytes > _BIG_TENSOR_SIZE_LIMIT:
-            # Temporarily remove the initializer value to reduce model size
-            # for onnx.shape_inference
-            initializer.const_value = None
-            assert initializer.name is not None
-            model.graph.initializers.pop(initializer.name)
-
-    proto = ir.serde.serialize_model(model)
-
     try:
+        # Turn the initializers into inputs and clear the initializers
+        # to limit the model size
+        for initializer in initializer_values:
+            # Make sure the initializer has its shape/type set
+            if initializer.const_value is not None:
+                if initializer.shape is None:
+                    initializer.shape = initializer.const_value.shape  # type: ignore[assignment]
+                if initializer.dtype is None:
+                    initializer.dtype = initializer.const_value.dtype
+            if initializer not in model.graph.inputs:
+                model.graph.inputs.append(initializer)
+            if initializer.const_value is None:
+                # Initializer has no data (e.g. weights not loaded yet).
+                # Remove it from initializers so serialization doesn't fail,
+                # but keep it as an input so shape inference can use its type/shape.
+                assert initializer.name is not None
+                model.graph.initializers.pop(initializer.name)
+            elif initializer.const_value.nbytes > _BIG_TENSOR_SIZE_LIMIT:
+                # Temporarily remove the initializer value to reduce model size
+                # for onnx.shape_inference
+                initializer.const_value = None
+                assert initializer.name is not None
+                model.graph.initializers.pop(initializer.name)
+
+        proto = ir.serde.serialize_model(model)
+
         # Call the ONNX C API function
         result = func(proto)
     finally:
-        # Restore the original initializer values so the model is unchanged
-        for initializer in initializer_values:
+        # Restore the original initializers (values, shape/type and order) so the
+        # model is unchanged, also when serialization or the API call fails
+        model.graph.initializers.clear()
+        for initializer, (shape, type_) in zip(initializer_values, shapes_and_types):
             initializer.const_value = tensors[initializer.name]
-            if initializer.const_value is not None:
-                model.graph.register_initializer(initializer)
-            else:
-                # register_initializer requires const_value to be set.
-                # Directly add to the initializers dict to restore unloaded
-                # initializers that have no data.
-                model.graph.initializers.add(initializer)
+            initializer.shape = shape
+            initializer.type = type_
+            # register_initializer requires const_value to be set. Directly add to
+            # the initializers dict so that unloaded initializers are restored too.
+            model.graph.initializers.add(initializer)
 
         # Restore the original inputs
         inputs = model.graph.inputs[:original_inputs_len]
